@@ -198,6 +198,35 @@ def _concrete_run(mod, sp, values, choices):
     return ce, obs, err
 
 
+def concrete_grid(mod, sp, eng, deadline):
+    """Every assignment of {lo, lo+1, lo+2} (within bounds) to the integer inputs x every choice combination, concretely."""
+    names = [n for n, (lo, hi) in eng.var_bounds.items() if not n.startswith(("clock", "cp"))]
+    if not names or len(names) > 8:
+        return []
+    width = 3 if len(names) <= 5 else 2
+    grids = []
+    for n in names:
+        lo, hi = eng.var_bounds[n]
+        lo = 0 if lo is None else lo
+        vals = [v for v in range(lo, lo + width) if hi is None or v <= hi]
+        grids.append(vals or [lo])
+    out, seen = [], set()
+    for combo in itertools.product(*grids):
+        if time.time() > deadline:
+            break
+        ce = E.Engine("conc", values=dict(zip(names, combo)), choices=None)
+        with models.suspended():
+            try:
+                ce.explore_concrete(lambda e: mod.harness(e, sp), deadline=deadline)
+            except Exception:
+                continue
+        for v in ce.violations:
+            if v.key not in seen:
+                seen.add(v.key)
+                out.append(dict(v.as_dict(), confirmed=True, degraded="found by bounded concrete enumeration after an unsupported proxy operation"))
+    return out
+
+
 def run_subspace(args):
     prop_name, sp, deadline = args
     t0 = time.time()
@@ -253,6 +282,12 @@ def run_subspace(args):
                 ce, obs, err = _concrete_run(mod, sp, vals, choices)
                 for v in ce.violations:
                     res["violations"].append(dict(v.as_dict(), confirmed=True, degraded=why))
+            # fallback for code the proxies cannot follow: bounded exhaustive CONCRETE enumeration (small value grid x all choices);
+            # a violation found this way is real (exit 1); without one the run stays inconclusive (exit 2)
+            if degraded and not res["violations"]:
+                found = concrete_grid(mod, sp, eng, time.time() + 60)
+                res["violations"].extend(found)
+                eng.stats["concrete_grid_runs"] = eng.stats.get("concrete_grid_runs", 0) + 1
             # confirm candidate violations by concrete replay on the unmodified library
             per_key = {}
             for v in eng.violations:
